@@ -2812,7 +2812,9 @@ func (p *parser) parsePropertyBinding() js_ast.PropertyBinding {
 			key = js_ast.Expr{Loc: nameRange.Loc, Data: &js_ast.EString{Value: helpers.StringToUTF16(name.String)}}
 		}
 
-		if p.lexer.Token != js_lexer.TColon && p.lexer.Token != js_lexer.TOpenParen {
+		// A keyword such as "if" is a valid property name but not a valid
+		// shorthand binding: "var {if: x} = y" is ok, "var {if} = y" is not
+		if p.lexer.Token != js_lexer.TColon && p.lexer.Token != js_lexer.TOpenParen && js_lexer.Keywords[name.String] == js_lexer.T(0) {
 			// Forbid invalid identifiers
 			if (p.fnOrArrowDataParse.await != allowIdent && name.String == "await") ||
 				(p.fnOrArrowDataParse.yield != allowIdent && name.String == "yield") {
